@@ -1,6 +1,7 @@
 import OmbottModel.Model.RouterEditSpec
 import OmbottModel.Lemmas.RouterEditProps
 import OmbottModel.Lemmas.RouterEditWitness
+import OmbottModel.Lemmas.RouterParse
 /-!
 C11 — The router after any edit history equals a freshly built router.
 Property theorems only; helper lemmas live in `Lemmas/RouterEdit*.lean`.
@@ -93,6 +94,28 @@ theorem addHooks_denote (t t' : Node) (pat : List Sym) (hooks : HookPair) (ow : 
   exact ⟨(hs (fun _ => 0)).1, (hs (fun _ => 0)).2.1, fun enc => (hs enc).2.2⟩
 
 /-! ## the router: tree and indexes stay in step -/
+
+/-- the domain of the history theorems (`EditOK`) in terms of the rule texts: no rule text
+contains the router's marker character (CR), and no *registered* rule has a pattern ending
+with `*` (the marker `remove` strips) -/
+theorem editOK_of_rule_text (op : EditOp)
+    (h : match op with
+      | .reg (.add cenv a) => Gen.paramToken ∉ a.rule ∧ ∀ p, parseRule cenv a.rule = .ok p → NoStar p.syms
+      | .reg (.removeMethod _ _) => True
+      | .removeRule _ rule => Gen.paramToken ∉ rule
+      | .removeName _ => True
+      | .addHook _ rule _ _ => Gen.paramToken ∉ rule
+      | .removeHook _ rule => Gen.paramToken ∉ rule) : EditOK op := by
+  cases op with
+  | reg o =>
+    cases o with
+    | add cenv a => exact fun p hp => ⟨parseRule_noLitTok h.1 hp, h.2 p hp⟩
+    | removeMethod id ms => trivial
+  | removeRule cenv rule => exact fun p hp => parseRule_noLitTok h hp
+  | removeName nm => trivial
+  | addHook cenv rule hook pt => exact fun p hp => parseRule_noLitTok h hp
+  | removeHook cenv rule => exact fun p hp => parseRule_noLitTok h hp
+
 
 /-- **Refinement.**  After every history of editing calls (registrations accepted or rejected —
 method clash, name clash after the tree was updated, filter clash, syntax error —, overwrites,
